@@ -159,6 +159,8 @@ impl Model {
 /// What a case exercised: used for the non-triviality rules and the class histograms in the evidence.
 #[derive(Clone, Debug, Default, Serialize, Deserialize)]
 pub struct CaseStats {
+    /// writes executed on a key that was past its time-to-live while the sweeper was parked (ExpiredWrite)
+    pub expired_unswept_writes: u32,
     pub ops_executed: u32,
     pub writes: u32,
     pub reads: u32,
@@ -222,6 +224,11 @@ impl CaseStats {
 #[derive(Clone, Debug, Default, Serialize, Deserialize, PartialEq, Eq)]
 pub struct Policy {
     pub allow_over_limit_upsert: bool,
+    /// with `allow_over_limit_upsert`: a breach of the weight bound that the model explains (the recorded finding F5) is
+    /// noted and reported at the end of the case instead of ending it, also when the check is about C01: what the cache
+    /// does after the breach (the next admission must repair it) stays under test
+    #[serde(default)]
+    pub note_over_limit: bool,
     pub allow_put_on_expired_unswept: bool,
     pub allow_upsert_on_dead_entry: bool,
     pub allow_ttl_overflow: bool,
